@@ -43,7 +43,7 @@ CHECKS = {
              "answer (attribution, default scheme, cost of new hashes, needs_update, the three verify_and_update outcomes, fixed point of "
              "repeated logins, independence of the order in which the lazily built record caches were filled) is compared with an independent "
              "~200-line PolicyModel; costs come from an independent regular-expression field extractor, never from passlib's parsers.",
-        note="<=5 schemes from a 22-scheme cheap palette, categories admin/staff (+ an unknown one), <=40 ops, well-formed configurations only. "
+        note="<=5 schemes from a 43-scheme cheap palette (incl. {CRYPT}- and bcrypt$-prefixed wrappers), categories admin/staff (+ an unknown one), <=40 ops, well-formed configurations only. "
              "Exact vary_rounds ranges are not modelled (only: inside window and hard limits). Trusted: PolicyModel (refmodels/policy.py), extractor.",
         design_ref="DESIGN.md section 4 and Appendix B, C04"),
     "C06": dict(
@@ -90,7 +90,7 @@ CHECKS = {
              "node is compared with a sequential model of using(): cost = default clipped into the window (or inside it when varying), salt size, "
              "ident and algorithm variant (fshp variant, bcrypt_sha256 version, scrypt block_size / parallelism as carried by the hash), truncation policy, "
              "needs_update exactly outside the window, ValueError beyond hard limits when strict, clamped when relaxed, never a hash outside them.",
-        note="Which inconsistent min/max/default combinations must be refused is not modelled (a refusal is always accepted). 22-hasher palette; scram and "
+        note="Which inconsistent min/max/default combinations must be refused is not modelled (a refusal is always accepted). 33-hasher palette; scram, sun_md5_crypt and "
              "argon2 are outside it. Interleaving is at operation granularity (line-level interleaving of using() itself is C19's scheduler, not used here).",
         design_ref="DESIGN.md section 4, C09"),
     "C10": dict(
